@@ -318,6 +318,9 @@ type wfVariant struct {
 	crlf   bool
 	blank  bool // blank line between statements
 	unkown string
+	opener string // local directory paths end in this comment opener, inside quotes
+	tws    bool   // comments carry trailing white space; a deprecation comment is added
+	noSpec bool   // values are not the layout's: no comparison with the specification's state
 }
 
 func quoteArgs(verb string, it mfItem) mfItem {
@@ -338,6 +341,19 @@ func quoteArgs(verb string, it mfItem) mfItem {
 	return it
 }
 
+// openerArgs: directory arguments (replacement targets without version, use directories) end in "//" or "/*"
+func openerArgs(verb string, it mfItem, opener string) mfItem {
+	switch verb {
+	case "use":
+		it.P = "\"" + it.P + opener + "\""
+	case "replace":
+		if it.Nv == "" {
+			it.Np = "\"" + it.Np + opener + "\""
+		}
+	}
+	return it
+}
+
 func renderVariant(layout []mfStmt, v wfVariant) string {
 	l2 := make([]mfStmt, len(layout))
 	for i, st := range layout {
@@ -346,6 +362,12 @@ func renderVariant(layout []mfStmt, v wfVariant) string {
 			l2[i].Items = make([]mfItem, len(st.Items))
 			for j, it := range st.Items {
 				l2[i].Items[j] = quoteArgs(st.Verb, it)
+			}
+		}
+		if v.opener != "" {
+			l2[i].Items = make([]mfItem, len(st.Items))
+			for j, it := range st.Items {
+				l2[i].Items[j] = openerArgs(st.Verb, it, v.opener)
 			}
 		}
 	}
@@ -358,6 +380,18 @@ func renderVariant(layout []mfStmt, v wfVariant) string {
 		sep = "\n"
 	}
 	text := strings.Join(parts, sep)
+	if v.tws {
+		lines := strings.Split(text, "\n")
+		for i, l := range lines {
+			if strings.Contains(l, "//") {
+				lines[i] = l + " \t"
+			}
+			if strings.HasPrefix(l, "module ") {
+				lines[i] = "// Deprecated: use v2 \t\n" + lines[i]
+			}
+		}
+		text = strings.Join(lines, "\n")
+	}
 	if v.crlf {
 		text = strings.Replace(text, "\n", "\r\n", -1)
 	}
@@ -388,10 +422,12 @@ func checkWellFormed(c *core.Case) ([]core.Violation, bool) {
 	add := func(sig, format string, a ...any) {
 		vs = append(vs, core.Violation{Sig: sig, What: fmt.Sprintf(format, a...), Case: c})
 	}
-	variants := []wfVariant{{name: "plain"}, {name: "crlf", crlf: true}, {name: "blank", blank: true}, {name: "quoted", quote: true}, {name: "quoted-crlf-blank", quote: true, crlf: true, blank: true}}
+	variants := []wfVariant{{name: "plain"}, {name: "crlf", crlf: true}, {name: "blank", blank: true}, {name: "quoted", quote: true}, {name: "quoted-crlf-blank", quote: true, crlf: true, blank: true},
+		{name: "dir-ends-in-slashes", opener: "//", noSpec: true}, {name: "dir-ends-in-slash-star", opener: "/*", noSpec: true},
+		{name: "comment-trailing-space", tws: true, noSpec: true}, {name: "comment-trailing-space-crlf", tws: true, crlf: true, noSpec: true}}
 	for _, v := range variants {
 		text := renderVariant(in.Layout, v)
-		if v.quote {
+		if v.quote || v.opener != "" {
 			text = strings.Replace(text, "\"\\\"", "\"", -1)
 			text = strings.Replace(text, "\\\"\"", "\"", -1)
 		}
@@ -421,7 +457,7 @@ func checkWellFormed(c *core.Case) ([]core.Violation, bool) {
 				core.NoteDrift(fmt.Sprintf("well-formed layout (%s) rejected by the strict parser: %v\n%s", v.name, err, text))
 				continue
 			}
-			if d := diffStates(&exp.M, &st1); len(d) > 0 {
+			if d := diffStates(&exp.M, &st1); len(d) > 0 && !v.noSpec {
 				core.NoteDrift(fmt.Sprintf("strict parse of a %s layout differs from the specification in %v\n%s", v.name, d, text))
 			}
 			// format without any edit, parse again: the directive values must be identical
@@ -442,10 +478,17 @@ func checkWellFormed(c *core.Case) ([]core.Violation, bool) {
 				add("c02:wf:output-rejected", "formatted output of an accepted file is rejected by the strict parser (%s, %s): %v\ninput:\n%s\noutput:\n%s", v.name, fixName, err, text, out)
 				continue
 			}
+			if in.Kind != "work" {
+				f1, _ := modfile.Parse("go.mod", []byte(text), fix)
+				f2, _ := modfile.Parse("go.mod", out, fix)
+				if f1 != nil && f2 != nil && f1.Module != nil && f2.Module != nil && f1.Module.Deprecated != f2.Module.Deprecated {
+					add("c02:wf:values-changed", "deprecation message %q before and %q after formatting (%s, %s)\ninput:\n%s\noutput:\n%s", f1.Module.Deprecated, f2.Module.Deprecated, v.name, fixName, text, out)
+				}
+			}
 			if d := diffStates(&st1, &st2); len(d) > 0 {
 				add("c02:wf:values-changed", "directive values %v differ before and after formatting (%s, %s)\ninput:\n%s\noutput:\n%s", d, v.name, fixName, text, out)
 			}
-			if fixName == "fix" || in.Kind == "work" {
+			if fixName == "fix" || in.Kind == "work" || v.noSpec {
 				continue
 			}
 			// ---- C20: lax accepts what strict accepts, with the same module, go, require and retract values
